@@ -6,8 +6,30 @@
    goroutine (bus/client.go Subscribe).
 
    A thread th \in Threads is one user of the generated Subscribe<Signal> API on
-   connection ConnOf[th] for signal SigOf[th]; it subscribes, is acknowledged,
-   later cancels, Rounds[th] times.  One emitter emits EmitSeq.
+   connection ConnOf[th] for signal SigOf[th] of object ObjOf[th]; it subscribes,
+   is acknowledged, later cancels, Rounds[th] times.  One emitter emits EmitSeq
+   (a sequence of (object, signal) pairs).
+
+   Addressing.  An event is addressed (service, object, action): every object
+   has its own subscriber table, mailbox and pending reply (regs[o], mbox[o],
+   srep[o]); the proxy state of a bus.Client is keyed by (connection, object,
+   signal) = the string "service.object.action" of proxy.go; a message on a
+   connection carries its object and signal; the client-side filter of a
+   subscription compares service, object id and action (client.go l.150-152),
+   the forwarding goroutine forwards Event messages only (l.169).  The object
+   universe is fixed: o1 = (s1, 1), o2 = (s1, 2) a sibling of the same type in
+   the same service, o3 = (s2, 1) the object with o1's id in another service.
+
+   Failing connections (c \in Failing).  BreakWrite(c, kind): from now on the
+   server's writes to c fail (kind "eof": the stream returns io.EOF, "err": any
+   other error) while the server's reader of c has noticed nothing: the
+   registrations of c stay in the tables.  The client of c is gone: its threads
+   take no further step and are not accounted any more.  SendFail: a Send of
+   UpdateSignal fails; after io.EOF the emitter removes the registration itself
+   (FailCleanup, signal.go l.225-229), after another error it only remembers the
+   error; in both cases it goes on with the next subscriber.  ReaderNotices(c):
+   the server's reader sees the end of the stream, the end point shuts down and
+   runs the closer of every registration of c (CloserRun, signal.go l.87-91).
 
    action            | code
    ------------------+---------------------------------------------------------
@@ -42,6 +64,18 @@
                      |   the lock
    EmitEnd           | UpdateSignal returns
 
+   Inject(i)         | the environment puts a message on connection i.c that is
+                     |   addressed like an event of (i.o, i.sig) but is not of
+                     |   type Event (the filter queues it, the forwarder drops it)
+   RogueUnreg(c,o,i) | connection c sends unregisterEvent with the user id of a
+                     |   registration another connection made (signal.go l.117-119:
+                     |   only the registering end point may remove it)
+   BreakWrite(c,k)   | server -> c writes start failing (peer gone)
+   SendFail          | l.224 replyEvent returns an error
+   FailCleanup       | l.225-229 err == io.EOF: removeSignalUser
+   ReaderNotices(c)  | endpoint.go process(): read error, closeWith: the closers
+   CloserRun(x)      | signal.go l.87-91 forgetSignalUser on disconnection
+
    Deviations of the code from the property (DESIGN.md 3.3), both TRUE for the
    pinned tree, FALSE in the property-checking configuration:
    Dev_ProxySectionsNotAtomic  the two sections SubInc..registration acknowledged
@@ -51,16 +85,46 @@
         registration is removed, and State(hkey, handler) adds to a key a
         concurrent cancel has not cleared yet (handler-key arithmetic).
    Dev_SendAfterSnapshot  UpdateSignal sends from its snapshot after the
-        removal of a registration has been acknowledged.                      *)
+        removal of a registration has been acknowledged.
+   Further named deviations, none of them in the pinned tree (Devs = {} in every
+   property configuration and in the trace configuration): vacuity guards, each
+   breaks the invariant named with it (MCSignal_probe*.cfg), and diagnosis of a
+   recorded execution the specification cannot explain otherwise:
+   Dev_FilterIgnoresService / Dev_FilterIgnoresObject / Dev_FilterIgnoresAction
+        the subscription's filter does not compare that header field
+        (NoForeignSignal);
+   Dev_ForwardIgnoresType  the forwarding goroutine forwards messages of any
+        type (NoForeignSignal);
+   Dev_StopAtFirstFailedSend  UpdateSignal returns at the first subscriber whose
+        Send fails: the subscribers behind it in the table lose the event
+        (Complete);
+   Dev_CleanupRemovesBlindly  the clean-up after a failed Send, when the
+        registration is gone already, drops the last entry of the table instead
+        (RemovedAtMostOnce, then Complete);
+   Dev_UnregIgnoresConnection  forgetSignalUser matches the user id only: any
+        connection can remove another connection's registration
+        (OthersUndisturbed, Complete).                                         *)
 EXTENDS Integers, Sequences, FiniteSets, TLC
 
 CONSTANTS
-  Threads, Conns, Signals,
-  ConnOf, SigOf, Rounds,      \* functions over Threads
-  EmitSeq,                    \* the signals emitted, in order
+  Threads, Conns, Signals, Objects,
+  ConnOf, SigOf, ObjOf, Rounds,  \* functions over Threads
+  EmitSeq,                    \* the (object, signal) pairs emitted, in order: [o, sig]
   QCap,                       \* capacity of a subscription's queue (100 in the code)
   Dev_ProxySectionsNotAtomic,
-  Dev_SendAfterSnapshot
+  Dev_SendAfterSnapshot,
+  Devs,                       \* names of the further deviations that are switched on
+  Probe,                      \* set of sets of names: a behaviour picks one at Init and has these
+                              \*   deviations on as well ({{}} everywhere but in the vacuity runs)
+  Failing,                    \* connections whose server -> client direction may break
+  Inject,                     \* set of [c, o, sig]: non-Event messages addressed like an event of
+                              \*   (o, sig) the environment may put on connection c, once each
+  Rogue                       \* connections that may send, once each, an unregisterEvent for the user
+                              \*   id of a registration that belongs to ANOTHER connection
+
+\* ---- the object universe ---------------------------------------------------
+Svc(o) == IF o = "o3" THEN "s2" ELSE "s1"
+Oid(o) == IF o = "o2" THEN 2 ELSE 1
 
 \* ---- ready-made configurations (cfg files cannot write functions) ---------
 T1 == {"t1"}
@@ -70,24 +134,34 @@ T13 == {"t1", "t3"}
 OneConn   == [t \in T3 |-> "c1"]                               \* same proxy / same connection
 TwoConn   == [t \in T3 |-> IF t = "t3" THEN "c2" ELSE "c1"]    \* t3 on another connection
 SameSig   == [t \in T3 |-> "A"]
+AllO1     == [t \in T3 |-> "o1"]
+E(o, sig) == [o |-> o, sig |-> sig]
 MixedSig  == [t \in T3 |-> IF t = "t2" THEN "B" ELSE "A"]
 R1 == [t \in T3 |-> 1]
 R2 == [t \in T3 |-> 2]
 R21 == [t \in T3 |-> IF t = "t1" THEN 2 ELSE 1]
-EmitA   == <<"A">>
-EmitAA  == <<"A", "A">>
-EmitAAA == <<"A", "A", "A">>
-EmitAAB == <<"A", "A", "B">>
-EmitAB  == <<"A", "B">>
-EmitABA == <<"A", "B", "A">>
+EmitA   == <<E("o1", "A")>>
+EmitAA  == <<E("o1", "A"), E("o1", "A")>>
+EmitAAA == <<E("o1", "A"), E("o1", "A"), E("o1", "A")>>
+EmitAAB == <<E("o1", "A"), E("o1", "A"), E("o1", "B")>>
+EmitAB  == <<E("o1", "A"), E("o1", "B")>>
+EmitABA == <<E("o1", "A"), E("o1", "B"), E("o1", "A")>>
 
 \* the fixed cast of the conformance harness (harness/cmd/signal/c13.go):
-\*   t1, t2: connection c1, signal A (one bus.Client: shared reference count)
-\*   t3    : connection c1, signal B        t4: connection c2, signal A
-\*   t5    : connection c2, signal B
-Cast     == {"t1", "t2", "t3", "t4", "t5"}
-CastConn == [t \in Cast |-> IF t \in {"t4", "t5"} THEN "c2" ELSE "c1"]
+\*   t1, t2: connection c1, object o1, signal A (one bus.Client: shared reference count)
+\*   t3    : c1, o1, B        t4: c2, o1, A        t5: c2, o1, B
+\*   t6    : c1, o2, A  the sibling object through the SAME client as t1 (object differs)
+\*   t7    : c2, o2, A  the sibling object on another connection
+\*   t8    : c1, o3, A  the object with o1's id in another service, same client (service differs)
+\*   t9    : c3, o1, A        t10: c3, o2, A       c3 = the connection that breaks
+Cast     == {"t1", "t2", "t3", "t4", "t5", "t6", "t7", "t8", "t9", "t10"}
+CastConn == [t \in Cast |-> CASE t \in {"t4", "t5", "t7"} -> "c2"
+                              [] t \in {"t9", "t10"} -> "c3"
+                              [] OTHER -> "c1"]
 CastSig  == [t \in Cast |-> IF t \in {"t3", "t5"} THEN "B" ELSE "A"]
+CastObj  == [t \in Cast |-> CASE t \in {"t6", "t7", "t10"} -> "o2"
+                              [] t = "t8" -> "o3"
+                              [] OTHER -> "o1"]
 Cast12   == {"t1", "t2"}
 Cast124  == {"t1", "t2", "t4"}
 Cast134  == {"t1", "t3", "t4"}
@@ -97,9 +171,44 @@ CR2  == [t \in Cast |-> 2]
 CR21 == [t \in Cast |-> IF t = "t1" THEN 2 ELSE 1]
 CR99 == [t \in Cast |-> 99]
 NoEmit == <<>>
+\* casts and emission sequences of the object / failure configurations
+Cast16   == {"t1", "t6"}
+Cast18   == {"t1", "t8"}
+Cast17   == {"t1", "t7"}
+Cast13   == {"t1", "t3"}
+Cast167  == {"t1", "t6", "t7"}
+Cast1678 == {"t1", "t6", "t7", "t8"}
+Cast9    == {"t9"}
+Cast94   == {"t9", "t4"}
+Cast914  == {"t9", "t1", "t4"}
+Cast9410 == {"t9", "t4", "t10", "t7"}
+EmitO12  == <<E("o1", "A"), E("o2", "A")>>
+EmitO21  == <<E("o2", "A"), E("o1", "A")>>
+EmitO13  == <<E("o1", "A"), E("o3", "A")>>
+EmitO121 == <<E("o1", "A"), E("o2", "A"), E("o1", "A")>>
+EmitO1231 == <<E("o1", "A"), E("o2", "A"), E("o3", "A"), E("o1", "A")>>
+EmitO1   == <<E("o1", "A")>>
+EmitO11  == <<E("o1", "A"), E("o1", "A")>>
+EmitO112 == <<E("o1", "A"), E("o1", "A"), E("o2", "A")>>
+NoInject == {}
+NoRogue  == {}
+InjC1O1A == {[c |-> "c1", o |-> "o1", sig |-> "A"]}
+NoProbe  == {{}}
+\* the vacuity guards: one deviation per behaviour
+ProbeFilter == {{"Dev_FilterIgnoresService"}, {"Dev_FilterIgnoresObject"},
+                {"Dev_FilterIgnoresAction"}, {"Dev_ForwardIgnoresType"}}
+ProbeFail   == {{"Dev_StopAtFirstFailedSend"}, {"Dev_CleanupRemovesBlindly"}, {"Dev_UnregIgnoresConnection"}}
+ProbeAll    == ProbeFilter \cup ProbeFail
+\* cast of the vacuity run: for every header field a pair of subscribers on ONE client whose
+\* subscriptions differ in exactly that field (t1/t8 service, t1/t6 object, t1/t3 action), an
+\* injected non-Event message for t1 (simulation); the failure guards run on the cast of
+\* MCSignal_fail.cfg (breadth-first)
+CastProbe == {"t1", "t3", "t6", "t8"}
+EmitProbe == <<E("o2", "A"), E("o3", "A"), E("o1", "B"), E("o1", "A")>>
+EmitO2   == <<E("o2", "A")>>
 
-Keys == Conns \X Signals
-Key(th) == <<ConnOf[th], SigOf[th]>>
+Keys == Conns \X Objects \X Signals
+Key(th) == <<ConnOf[th], ObjOf[th], SigOf[th]>>
 NoThread == ""
 \* handler ids (rand.Int() in the code): powers of 3, so that the sums and
 \* differences State() builds from them (coefficients -1, 0, 1) never collide
@@ -109,18 +218,23 @@ Pow3(n) == IF n = 0 THEN 1 ELSE 3 * Pow3(n - 1)
 Pow2(n) == Pow3(n)
 
 VARIABLES
-  \* server
-  regs,        \* sequence of [u, c, sig]: signalHandler.signals (the order of the slice
+  \* server, per object
+  regs,        \* [Objects -> sequence of [u, c, sig]]: signalHandler.signals (the order of the slice
                \*   matters: removal moves the last entry into the hole, sends follow it)
-  mbox,        \* FIFO of register/unregister requests to the object (its mailbox)
-  srep,        \* the reply the mailbox goroutine still has to send ([c = ""] when none)
+  mbox,        \* [Objects -> FIFO of register/unregister requests]: the object's mailbox
+  srep,        \* [Objects -> the reply the mailbox goroutine still has to send] ([c = ""] when none)
   em,          \* emitter [pc, k, pending]: pending = snapshot entries still to be sent
   called,      \* number of emit calls made
   started,     \* number of snapshots taken
   completed,   \* number of emit calls returned
-  emitted,     \* the signals of the emit calls made so far (emitted[k] = signal of event k)
+  emitted,     \* the emit calls made so far: emitted[k] = [o, sig] of event k
   \* connections (server -> client)
   wire,        \* [Conns -> Seq(message)]
+  wst,         \* [Conns -> "up" | "eof" | "err" | "down"]: the server's writes succeed / fail with
+               \*   io.EOF / fail with another error / the server's reader has seen the end
+  clos,        \* closers of a shut-down end point that have not run yet: set of [o, u, c]
+  injected,    \* the members of Inject already put on their connection
+  rogued,      \* the members of Rogue that have sent their foreign unregisterEvent
   \* proxy state of a connection's bus.Client
   cnt, hk,     \* [Keys -> Int]
   lock,        \* [Keys -> thread or NoThread]: the thread inside a proxy section; it excludes
@@ -138,32 +252,43 @@ VARIABLES
   cancelAt,    \* [Threads -> Int]: emit calls that had returned when the cancel was requested
   unregAcked,  \* set of <<c, u>>: the removal of u was acknowledged on connection c
   lateSend,    \* an event for an acknowledged removal was sent afterwards
-  devUsed      \* the deviations this behaviour needed (a conforming design would have blocked)
+  removed,     \* set of <<o, u>>: registrations taken out of a table so far
+  dblrm,       \* a registration was "removed" a second time (something else left the table)
+  devUsed,     \* the deviations this behaviour needed (a conforming design would have blocked)
+  probe        \* the deviations of Probe this behaviour runs with
 
 srv  == <<regs, mbox, srep>>
 emv  == <<em, called, started, completed, emitted>>
+net  == <<wire, wst, clos, injected, rogued>>
 prox == <<cnt, hk, lock>>
 thr  == <<pc, h, round, nextU>>
 cli  == <<lh, q, got, closed>>
-obs  == <<ackAt, cancelled, cancelAt, unregAcked, lateSend, devUsed>>
-vars == <<srv, emv, wire, prox, thr, cli, obs>>
+obs  == <<ackAt, cancelled, cancelAt, unregAcked, lateSend, removed, dblrm, devUsed, probe>>
+vars == <<srv, emv, net, prox, thr, cli, obs>>
+
+DevOn(d) == d \in Devs \/ d \in probe
 
 NoReply == [c |-> "", th |-> "", ok |-> TRUE, u |-> 0, unreg |-> FALSE]
+NoEntry == [u |-> 0, c |-> "", sig |-> ""]
 
 Init ==
-  /\ regs = <<>> /\ mbox = <<>> /\ srep = NoReply
-  /\ em = [pc |-> "idle", k |-> 0, pending |-> <<>>]
+  /\ regs = [o \in Objects |-> <<>>] /\ mbox = [o \in Objects |-> <<>>]
+  /\ srep = [o \in Objects |-> NoReply]
+  /\ em = [pc |-> "idle", k |-> 0, pending |-> <<>>, failed |-> NoEntry]
   /\ called = 0 /\ started = 0 /\ completed = 0 /\ emitted = <<>>
-  /\ wire = [c \in Conns |-> <<>>]
+  /\ wire = [c \in Conns |-> <<>>] /\ wst = [c \in Conns |-> "up"] /\ clos = {} /\ injected = {} /\ rogued = {}
   /\ cnt = [x \in Keys |-> 0] /\ hk = [x \in Keys |-> 0] /\ lock = [x \in Keys |-> NoThread]
   /\ pc = [t \in Threads |-> "idle"] /\ h = [t \in Threads |-> 0] /\ round = [t \in Threads |-> 1]
   /\ nextU = 0
   /\ lh = [t \in Threads |-> FALSE] /\ q = [t \in Threads |-> <<>>] /\ got = [t \in Threads |-> <<>>]
   /\ closed = [t \in Threads |-> FALSE]
   /\ ackAt = [t \in Threads |-> -1] /\ cancelled = [t \in Threads |-> FALSE]
-  /\ cancelAt = [t \in Threads |-> 0] /\ unregAcked = {} /\ lateSend = FALSE /\ devUsed = {}
+  /\ cancelAt = [t \in Threads |-> 0] /\ unregAcked = {} /\ lateSend = FALSE
+  /\ removed = {} /\ dblrm = FALSE /\ devUsed = {}
+  /\ probe \in Probe
 
 Goto(th, l) == pc' = [pc EXCEPT ![th] = l]
+obsStatic == <<removed, dblrm, probe>>     \* what the thread / dispatch steps never touch
 
 \* ---------------------------------------------------------------------------
 \* proxy: subscribe
@@ -174,10 +299,10 @@ SubLocal(th) ==
   /\ got' = [got EXCEPT ![th] = <<>>] /\ closed' = [closed EXCEPT ![th] = FALSE]
   /\ ackAt' = [ackAt EXCEPT ![th] = -1] /\ cancelled' = [cancelled EXCEPT ![th] = FALSE]
   /\ Goto(th, "inc")
-  /\ UNCHANGED <<srv, emv, wire, prox, h, round, nextU, cancelAt, unregAcked, lateSend, devUsed>>
+  /\ UNCHANGED <<srv, emv, net, prox, h, round, nextU, cancelAt, unregAcked, lateSend, devUsed, obsStatic>>
 
 \* a conforming implementation makes SubInc..registration acknowledged and
-\* UnsubDec..removal acknowledged one critical section per (connection, signal)
+\* UnsubDec..removal acknowledged one critical section per (connection, object, signal)
 \* (with the deviation the lock is only tracked: entering an occupied section is
 \* possible and recorded in devUsed)
 Busy(th)    == lock[Key(th)] # NoThread /\ lock[Key(th)] # th
@@ -194,136 +319,268 @@ SubInc(th) ==
      THEN Acquire(th) /\ Goto(th, "key")
      ELSE Free(th) /\ UNCHANGED lock /\ Goto(th, "ackready")
   /\ Overlap(th)
-  /\ UNCHANGED <<srv, emv, wire, hk, h, round, nextU, cli, ackAt, cancelled, cancelAt, unregAcked, lateSend>>
+  /\ UNCHANGED <<srv, emv, net, hk, h, round, nextU, cli, ackAt, cancelled, cancelAt, unregAcked, lateSend, obsStatic>>
 
 SubKey(th) ==
   /\ pc[th] = "key"
   /\ h' = [h EXCEPT ![th] = Pow2(nextU)] /\ nextU' = nextU + 1
   /\ hk' = [hk EXCEPT ![Key(th)] = @ + Pow2(nextU)]          \* State(hkey, handler) adds
   /\ Goto(th, "rpc")
-  /\ UNCHANGED <<srv, emv, wire, cnt, lock, round, cli, obs>>
+  /\ UNCHANGED <<srv, emv, net, cnt, lock, round, cli, obs>>
 
+Request(t, th) == [t |-> t, c |-> ConnOf[th], sig |-> SigOf[th], u |-> h[th], th |-> th]
 SubRPC(th) ==
   /\ pc[th] = "rpc"
-  /\ mbox' = Append(mbox, [t |-> "reg", c |-> ConnOf[th], sig |-> SigOf[th], u |-> h[th], th |-> th])
+  /\ mbox' = [mbox EXCEPT ![ObjOf[th]] = Append(@, Request("reg", th))]
   /\ Goto(th, "waitreg")
-  /\ UNCHANGED <<regs, srep, emv, wire, prox, h, round, nextU, cli, obs>>
+  /\ UNCHANGED <<regs, srep, emv, net, prox, h, round, nextU, cli, obs>>
 
 \* SubscribeID returns to the user
 Ack(th) ==
   /\ pc[th] = "ackready"
   /\ ackAt' = [ackAt EXCEPT ![th] = called]
   /\ Goto(th, "acked")
-  /\ UNCHANGED <<srv, emv, wire, prox, h, round, nextU, cli, cancelled, cancelAt, unregAcked, lateSend, devUsed>>
+  /\ UNCHANGED <<srv, emv, net, prox, h, round, nextU, cli, cancelled, cancelAt, unregAcked, lateSend, devUsed, obsStatic>>
 
 \* ---------------------------------------------------------------------------
-\* server: the object's mailbox goroutine
+\* server: the mailbox goroutine of object o
 \* ---------------------------------------------------------------------------
-Reply(th, ok) == [t |-> "rep", sig |-> "", k |-> 0, u |-> 0, th |-> th, ok |-> ok]
-EventMsg(sig, k, u) == [t |-> "ev", sig |-> sig, k |-> k, u |-> u, th |-> NoThread, ok |-> TRUE]
+Reply(th, ok) == [t |-> "rep", o |-> "", sig |-> "", k |-> 0, u |-> 0, th |-> th, ok |-> ok]
+EventMsg(o, sig, k, u) == [t |-> "ev", o |-> o, sig |-> sig, k |-> k, u |-> u, th |-> NoThread, ok |-> TRUE]
+InjMsg(o, sig) == [t |-> "inj", o |-> o, sig |-> sig, k |-> 0, u |-> 0, th |-> NoThread, ok |-> TRUE]
 Idx(seq, P(_)) == {i \in 1..Len(seq) : P(seq[i])}
 \* removeSignalUser: signals[i] = signals[last]; signals = signals[:last]
 SwapRemove(seq, i) == LET n == Len(seq) IN
                       IF i = n THEN SubSeq(seq, 1, n - 1)
                       ELSE [j \in 1..(n - 1) |-> IF j = i THEN seq[n] ELSE seq[j]]
+\* forgetSignalUser(u, c) on the table of o, under signalsMutex
+\* (the user id AND the connection must match: a registration belongs to its connection)
+Hit(o, u, c) == {i \in 1..Len(regs[o]) : regs[o][i].u = u /\ (regs[o][i].c = c \/ DevOn("Dev_UnregIgnoresConnection"))}
+Alien(o, u, c) == \E i \in Hit(o, u, c) : regs[o][i].c # c
+Known(o, u, c) == Hit(o, u, c) # {}
+ForgetIn(o, u, c) == [regs EXCEPT ![o] = SwapRemove(@, CHOOSE j \in Hit(o, u, c) : TRUE)]
+NoteRemoved(o, u) == removed' = removed \cup {<<o, u>>}
 
 \* addSignalUser under signalsMutex; the reply is sent afterwards
-ServerReg ==
-  /\ srep.c = "" /\ mbox # <<>> /\ Head(mbox).t = "reg"
-  /\ LET m == Head(mbox) IN
-       IF \E i \in 1..Len(regs) : regs[i].u = m.u
+ServerReg(o) ==
+  /\ srep[o].c = "" /\ mbox[o] # <<>> /\ Head(mbox[o]).t = "reg"
+  /\ LET m == Head(mbox[o]) IN
+       IF \E i \in 1..Len(regs[o]) : regs[o][i].u = m.u
        THEN /\ UNCHANGED regs                                   \* "user already exists"
-            /\ srep' = [c |-> m.c, th |-> m.th, ok |-> FALSE, u |-> m.u, unreg |-> FALSE]
-       ELSE /\ regs' = Append(regs, [u |-> m.u, c |-> m.c, sig |-> m.sig])
-            /\ srep' = [c |-> m.c, th |-> m.th, ok |-> TRUE, u |-> m.u, unreg |-> FALSE]
-  /\ mbox' = Tail(mbox)
-  /\ UNCHANGED <<emv, wire, prox, thr, cli, obs>>
+            /\ srep' = [srep EXCEPT ![o] = [c |-> m.c, th |-> m.th, ok |-> FALSE, u |-> m.u, unreg |-> FALSE]]
+       ELSE /\ regs' = [regs EXCEPT ![o] = Append(@, [u |-> m.u, c |-> m.c, sig |-> m.sig])]
+            /\ srep' = [srep EXCEPT ![o] = [c |-> m.c, th |-> m.th, ok |-> TRUE, u |-> m.u, unreg |-> FALSE]]
+  /\ mbox' = [mbox EXCEPT ![o] = Tail(@)]
+  /\ UNCHANGED <<emv, net, prox, thr, cli, obs>>
 
 InSeq(x, seq) == \E i \in 1..Len(seq) : seq[i] = x
 \* removeSignalUser under signalsMutex; the reply (= the acknowledgement) afterwards
-ServerUnreg ==
-  /\ srep.c = "" /\ mbox # <<>> /\ Head(mbox).t = "unreg"
-  /\ LET m == Head(mbox)
-         hit == {i \in 1..Len(regs) : regs[i].u = m.u /\ regs[i].c = m.c}
-     IN IF hit # {}
-        THEN LET i == CHOOSE j \in hit : TRUE IN
-             /\ regs' = SwapRemove(regs, i)
-             /\ srep' = [c |-> m.c, th |-> m.th, ok |-> TRUE, u |-> m.u, unreg |-> TRUE]
-        ELSE /\ UNCHANGED regs                                 \* "unknown user id"
-             /\ srep' = [c |-> m.c, th |-> m.th, ok |-> FALSE, u |-> m.u, unreg |-> TRUE]
-  /\ mbox' = Tail(mbox)
-  /\ UNCHANGED <<emv, wire, prox, thr, cli, obs>>
+ServerUnreg(o) ==
+  /\ srep[o].c = "" /\ mbox[o] # <<>> /\ Head(mbox[o]).t = "unreg"
+  /\ LET m == Head(mbox[o]) IN
+        IF Known(o, m.u, m.c)
+        THEN /\ regs' = ForgetIn(o, m.u, m.c)
+             /\ NoteRemoved(o, m.u)
+             /\ srep' = [srep EXCEPT ![o] = [c |-> m.c, th |-> m.th, ok |-> TRUE, u |-> m.u, unreg |-> TRUE]]
+             /\ devUsed' = IF Alien(o, m.u, m.c) THEN devUsed \cup {"Dev_UnregIgnoresConnection"} ELSE devUsed
+        ELSE /\ UNCHANGED <<regs, removed, devUsed>>           \* "unknown user id"
+             /\ srep' = [srep EXCEPT ![o] = [c |-> m.c, th |-> m.th, ok |-> FALSE, u |-> m.u, unreg |-> TRUE]]
+  /\ mbox' = [mbox EXCEPT ![o] = Tail(@)]
+  /\ UNCHANGED <<emv, net, prox, thr, cli, ackAt, cancelled, cancelAt, unregAcked, lateSend, dblrm, probe>>
 
-\* SendReply / SendError of the request just processed
-SendPending == srep.unreg /\ srep.ok /\
-               \E i \in 1..Len(em.pending) : em.pending[i].u = srep.u /\ em.pending[i].c = srep.c
-ServerReply ==
-  /\ srep.c # ""
+\* SendReply / SendError of the request just processed (to a connection whose
+\* writes fail the reply is lost; the requester is gone anyway)
+EmitObj == emitted[em.k].o
+SendPending(o) == /\ srep[o].unreg /\ srep[o].ok /\ em.pending # <<>> /\ EmitObj = o
+                  /\ \E i \in 1..Len(em.pending) : em.pending[i].u = srep[o].u /\ em.pending[i].c = srep[o].c
+ServerReply(o) ==
+  /\ srep[o].c # ""
   \* a conforming server does not acknowledge a removal while a send for it is pending
-  /\ Dev_SendAfterSnapshot \/ ~SendPending
-  /\ devUsed' = IF SendPending THEN devUsed \cup {"Dev_SendAfterSnapshot"} ELSE devUsed
-  /\ wire' = [wire EXCEPT ![srep.c] = Append(@, Reply(srep.th, srep.ok))]
-  /\ unregAcked' = IF srep.unreg /\ srep.ok THEN unregAcked \cup {<<srep.c, srep.u>>} ELSE unregAcked
-  /\ srep' = NoReply
-  /\ UNCHANGED <<regs, mbox, emv, prox, thr, cli, ackAt, cancelled, cancelAt, lateSend>>
+  /\ Dev_SendAfterSnapshot \/ ~SendPending(o)
+  /\ devUsed' = IF SendPending(o) THEN devUsed \cup {"Dev_SendAfterSnapshot"} ELSE devUsed
+  /\ wire' = IF wst[srep[o].c] = "up"
+             THEN [wire EXCEPT ![srep[o].c] = Append(@, Reply(srep[o].th, srep[o].ok))]
+             ELSE wire
+  /\ unregAcked' = IF srep[o].unreg /\ srep[o].ok /\ wst[srep[o].c] = "up"
+                   THEN unregAcked \cup {<<srep[o].c, srep[o].u>>} ELSE unregAcked
+  /\ srep' = [srep EXCEPT ![o] = NoReply]
+  /\ UNCHANGED <<regs, mbox, emv, wst, clos, injected, rogued, prox, thr, cli, ackAt, cancelled, cancelAt, lateSend, obsStatic>>
 
 \* ---------------------------------------------------------------------------
 \* emitter
 \* ---------------------------------------------------------------------------
-EmitSig(sig) ==
+EmitSig(o, sig) ==
   /\ em.pc = "idle"
-  /\ called' = called + 1 /\ emitted' = Append(emitted, sig)
-  /\ em' = [pc |-> "called", k |-> called + 1, pending |-> <<>>]
-  /\ UNCHANGED <<srv, started, completed, wire, prox, thr, cli, obs>>
-EmitCall == called < Len(EmitSeq) /\ EmitSig(EmitSeq[called + 1])
+  /\ called' = called + 1 /\ emitted' = Append(emitted, [o |-> o, sig |-> sig])
+  /\ em' = [pc |-> "called", k |-> called + 1, pending |-> <<>>, failed |-> NoEntry]
+  /\ UNCHANGED <<srv, started, completed, net, prox, thr, cli, obs>>
+EmitCall == called < Len(EmitSeq) /\ EmitSig(EmitSeq[called + 1].o, EmitSeq[called + 1].sig)
 
 EmitStart ==
   /\ em.pc = "called"
   /\ started' = started + 1
   /\ em' = [em EXCEPT !.pc = "sending",
-                      !.pending = SelectSeq(regs, LAMBDA r : r.sig = emitted[em.k])]
-  /\ UNCHANGED <<srv, called, completed, emitted, wire, prox, thr, cli, obs>>
+                      !.pending = SelectSeq(regs[EmitObj], LAMBDA r : r.sig = emitted[em.k].sig)]
+  /\ UNCHANGED <<srv, called, completed, emitted, net, prox, thr, cli, obs>>
 
+\* replyEvent succeeds
 SendTo ==
   /\ em.pc = "sending" /\ em.pending # <<>>
   /\ LET r == Head(em.pending) IN
-       /\ wire' = [wire EXCEPT ![r.c] = Append(@, EventMsg(r.sig, em.k, r.u))]
+       /\ wst[r.c] = "up"
+       /\ wire' = [wire EXCEPT ![r.c] = Append(@, EventMsg(EmitObj, r.sig, em.k, r.u))]
        /\ lateSend' = (lateSend \/ <<r.c, r.u>> \in unregAcked)
   /\ em' = [em EXCEPT !.pending = Tail(@)]
-  /\ UNCHANGED <<srv, called, started, completed, emitted, prox, thr, cli, ackAt, cancelled, cancelAt, unregAcked, devUsed>>
+  /\ UNCHANGED <<srv, called, started, completed, emitted, wst, clos, injected, rogued, prox, thr, cli, ackAt, cancelled,
+                 cancelAt, unregAcked, removed, dblrm, devUsed, probe>>
+
+\* what is left to send after a failure: everything but the failed entry - or
+\* nothing (Dev_StopAtFirstFailedSend: return err)
+AfterFailure(rest) == IF DevOn("Dev_StopAtFirstFailedSend") THEN <<>> ELSE rest
+StopUsed(rest) == IF DevOn("Dev_StopAtFirstFailedSend") /\ rest # <<>>
+                  THEN devUsed \cup {"Dev_StopAtFirstFailedSend"} ELSE devUsed
+\* replyEvent fails: nothing reaches the connection.  After io.EOF the emitter
+\* cleans up (next step), after another error it just goes on.
+SendFail ==
+  /\ em.pc = "sending" /\ em.pending # <<>>
+  /\ LET r == Head(em.pending) IN
+       /\ wst[r.c] # "up"
+       /\ IF wst[r.c] = "eof"
+          THEN em' = [em EXCEPT !.pc = "cleanup", !.failed = r, !.pending = Tail(@)] /\ UNCHANGED devUsed
+          ELSE em' = [em EXCEPT !.pending = AfterFailure(Tail(@))] /\ devUsed' = StopUsed(Tail(em.pending))
+  /\ UNCHANGED <<srv, called, started, completed, emitted, net, prox, thr, cli, ackAt, cancelled,
+                 cancelAt, unregAcked, lateSend, removed, dblrm, probe>>
+
+\* err == io.EOF: removeSignalUser(user.userID, user.context)
+FailCleanup ==
+  /\ em.pc = "cleanup"
+  /\ LET r == em.failed  o == EmitObj IN
+       IF Known(o, r.u, r.c)
+       THEN /\ regs' = ForgetIn(o, r.u, r.c) /\ NoteRemoved(o, r.u) /\ UNCHANGED dblrm
+            /\ devUsed' = StopUsed(em.pending)
+       ELSE IF DevOn("Dev_CleanupRemovesBlindly") /\ regs[o] # <<>>
+            THEN /\ regs' = [regs EXCEPT ![o] = SubSeq(@, 1, Len(@) - 1)]
+                 /\ dblrm' = TRUE /\ UNCHANGED removed
+                 /\ devUsed' = StopUsed(em.pending) \cup {"Dev_CleanupRemovesBlindly"}
+            ELSE /\ UNCHANGED <<regs, removed, dblrm>>          \* "unknown user id"
+                 /\ devUsed' = StopUsed(em.pending)
+  /\ em' = [em EXCEPT !.pc = "sending", !.failed = NoEntry, !.pending = AfterFailure(@)]
+  /\ UNCHANGED <<mbox, srep, called, started, completed, emitted, net, prox, thr, cli, ackAt, cancelled,
+                 cancelAt, unregAcked, lateSend, probe>>
 
 EmitEnd ==
   /\ em.pc = "sending" /\ em.pending = <<>>
   /\ em' = [em EXCEPT !.pc = "idle"]
   /\ completed' = completed + 1
-  /\ UNCHANGED <<srv, called, started, emitted, wire, prox, thr, cli, obs>>
+  /\ UNCHANGED <<srv, called, started, emitted, net, prox, thr, cli, obs>>
+
+\* ---------------------------------------------------------------------------
+\* connections: foreign messages, failure of the server -> client direction
+\* ---------------------------------------------------------------------------
+InjectMsg(i) ==
+  /\ i \in Inject \ injected /\ wst[i.c] = "up"
+  /\ injected' = injected \cup {i}
+  /\ wire' = [wire EXCEPT ![i.c] = Append(@, InjMsg(i.o, i.sig))]
+  /\ UNCHANGED <<srv, emv, wst, clos, rogued, prox, thr, cli, obs>>
+
+\* connection c asks object o to unregister the user id of a registration that another
+\* connection made (a confused or hostile client; ids are not secrets: they travel in clear).
+\* The request is an ordinary unregisterEvent in o's mailbox; nobody waits for its reply here.
+RogueReq(c, o, sig, u) ==
+  /\ c \in Rogue \ rogued /\ wst[c] = "up"
+  /\ rogued' = rogued \cup {c}
+  /\ mbox' = [mbox EXCEPT ![o] = Append(@, [t |-> "unreg", c |-> c, sig |-> sig, u |-> u, th |-> NoThread])]
+  /\ UNCHANGED <<regs, srep, emv, wire, wst, clos, injected, prox, thr, cli, obs>>
+RogueUnreg(c, o, i) ==
+  /\ i \in 1..Len(regs[o]) /\ regs[o][i].c # c
+  /\ RogueReq(c, o, regs[o][i].sig, regs[o][i].u)
+
+\* the client of c is gone and the server's writes to c fail from now on, the
+\* server's reader has not noticed.  The harness does this only while the
+\* client of c is quiet (no call in flight).
+OnConn(c) == {t \in Threads : ConnOf[t] = c}
+BreakWrite(c, kind) ==
+  /\ c \in Failing /\ wst[c] = "up"
+  /\ \A t \in OnConn(c) : pc[t] \in {"idle", "acked", "done", "failed"}
+  /\ wst' = [wst EXCEPT ![c] = kind]
+  /\ wire' = [wire EXCEPT ![c] = <<>>]
+  /\ pc' = [t \in Threads |-> IF ConnOf[t] = c THEN "dead" ELSE pc[t]]
+  /\ lh' = [t \in Threads |-> IF ConnOf[t] = c THEN FALSE ELSE lh[t]]
+  /\ q' = [t \in Threads |-> IF ConnOf[t] = c THEN <<>> ELSE q[t]]
+  /\ got' = [t \in Threads |-> IF ConnOf[t] = c THEN <<>> ELSE got[t]]
+  /\ closed' = [t \in Threads |-> IF ConnOf[t] = c THEN FALSE ELSE closed[t]]
+  /\ ackAt' = [t \in Threads |-> IF ConnOf[t] = c THEN -1 ELSE ackAt[t]]
+  /\ cancelled' = [t \in Threads |-> IF ConnOf[t] = c THEN FALSE ELSE cancelled[t]]
+  /\ cnt' = [x \in Keys |-> IF x[1] = c THEN 0 ELSE cnt[x]]
+  /\ hk' = [x \in Keys |-> IF x[1] = c THEN 0 ELSE hk[x]]
+  /\ lock' = [x \in Keys |-> IF x[1] = c THEN NoThread ELSE lock[x]]
+  /\ UNCHANGED <<srv, emv, clos, injected, rogued, h, round, nextU, cancelAt, unregAcked, lateSend, removed, dblrm, devUsed, probe>>
+
+\* the server's reader of c sees the end of the stream: closeWith detaches every
+\* handler of the end point and starts its closer; writes fail with "closed" now
+ReaderNotices(c) ==
+  /\ wst[c] \in {"eof", "err"}
+  /\ wst' = [wst EXCEPT ![c] = "down"]
+  /\ clos' = clos \cup UNION {{[o |-> o, u |-> regs[o][i].u, c |-> c] : i \in {j \in 1..Len(regs[o]) : regs[o][j].c = c}}
+                             : o \in Objects}
+  /\ UNCHANGED <<srv, emv, wire, injected, rogued, prox, thr, cli, obs>>
+
+\* the closer of one registration: forgetSignalUser
+CloserRun(x) ==
+  /\ x \in clos
+  /\ clos' = clos \ {x}
+  /\ IF Known(x.o, x.u, x.c)
+     THEN regs' = ForgetIn(x.o, x.u, x.c) /\ NoteRemoved(x.o, x.u)
+     ELSE UNCHANGED <<regs, removed>>
+  /\ UNCHANGED <<mbox, srep, emv, wire, wst, injected, rogued, prox, thr, cli, ackAt, cancelled, cancelAt, unregAcked,
+                 lateSend, dblrm, devUsed, probe>>
 
 \* ---------------------------------------------------------------------------
 \* client: dispatch of connection c, forwarding goroutines
 \* ---------------------------------------------------------------------------
 Room(t) == Len(q[t]) < QCap
+\* the filter of thread t's subscription (client.go l.150-152) on message m
+SvcOK(t, m) == Svc(m.o) = Svc(ObjOf[t])
+OidOK(t, m) == Oid(m.o) = Oid(ObjOf[t])
+ActOK(t, m) == m.sig = SigOf[t]
+Match(t, m) == /\ SvcOK(t, m) \/ DevOn("Dev_FilterIgnoresService")
+               /\ OidOK(t, m) \/ DevOn("Dev_FilterIgnoresObject")
+               /\ ActOK(t, m) \/ DevOn("Dev_FilterIgnoresAction")
+FilterDevs(t, m) == {d \in {"Dev_FilterIgnoresService", "Dev_FilterIgnoresObject", "Dev_FilterIgnoresAction"} :
+                       CASE d = "Dev_FilterIgnoresService" -> ~SvcOK(t, m)
+                         [] d = "Dev_FilterIgnoresObject" -> ~OidOK(t, m)
+                         [] d = "Dev_FilterIgnoresAction" -> ~ActOK(t, m)}
+Takes(t, c, m) == ConnOf[t] = c /\ lh[t] /\ Match(t, m)
 Deliver(c) ==
   /\ wire[c] # <<>>
   /\ LET m == Head(wire[c]) IN
-       IF m.t = "ev"
+       IF m.t # "rep"
        THEN /\ q' = [t \in Threads |->
-                       IF ConnOf[t] = c /\ SigOf[t] = m.sig /\ lh[t] /\ Room(t)
-                       THEN Append(q[t], [sig |-> m.sig, k |-> m.k]) ELSE q[t]]
+                       IF Takes(t, c, m) /\ Room(t)
+                       THEN Append(q[t], [t |-> m.t, o |-> m.o, sig |-> m.sig, k |-> m.k]) ELSE q[t]]
+            /\ devUsed' = devUsed \cup UNION {FilterDevs(t, m) : t \in {x \in Threads : Takes(x, c, m)}}
             /\ UNCHANGED <<pc, lock>>
-       ELSE /\ UNCHANGED q
-            /\ CASE pc[m.th] = "waitreg" /\ m.ok  -> Goto(m.th, "ackready") /\ Release(m.th)
+       ELSE /\ UNCHANGED <<q, devUsed>>
+            /\ CASE m.th = NoThread                   -> UNCHANGED <<pc, lock>>     \* nobody of the cast waits for it
+                 [] pc[m.th] = "waitreg" /\ m.ok  -> Goto(m.th, "ackready") /\ Release(m.th)
                  \* SubscribeID returns the error: the local handler and the count stay
                  [] pc[m.th] = "waitreg" /\ ~m.ok -> Goto(m.th, "failed") /\ Release(m.th)
                  [] pc[m.th] = "waitunreg"        -> Goto(m.th, "lcancel") /\ Release(m.th)
                  [] OTHER -> FALSE
   /\ wire' = [wire EXCEPT ![c] = Tail(@)]
-  /\ UNCHANGED <<srv, emv, cnt, hk, h, round, nextU, lh, got, closed, obs>>
+  /\ UNCHANGED <<srv, emv, wst, clos, injected, rogued, cnt, hk, h, round, nextU, lh, got, closed,
+                 ackAt, cancelled, cancelAt, unregAcked, lateSend, obsStatic>>
 
+\* the forwarding goroutine takes the next queued message: an Event goes to the
+\* subscriber's channel, anything else is dropped (client.go l.169)
+Forwards(e) == e.t = "ev" \/ DevOn("Dev_ForwardIgnoresType")
 Forward(th) ==
   /\ q[th] # <<>> /\ ~closed[th]
-  /\ got' = [got EXCEPT ![th] = Append(@, Head(q[th]))]
+  /\ got' = [got EXCEPT ![th] = IF Forwards(Head(q[th])) THEN Append(@, Head(q[th])) ELSE @]
+  /\ devUsed' = IF Head(q[th]).t # "ev" /\ DevOn("Dev_ForwardIgnoresType")
+                THEN devUsed \cup {"Dev_ForwardIgnoresType"} ELSE devUsed
   /\ q' = [q EXCEPT ![th] = Tail(@)]
-  /\ UNCHANGED <<srv, emv, wire, prox, thr, lh, closed, obs>>
+  /\ UNCHANGED <<srv, emv, net, prox, thr, lh, closed, ackAt, cancelled, cancelAt, unregAcked, lateSend, obsStatic>>
 
 \* ---------------------------------------------------------------------------
 \* proxy: cancel
@@ -333,7 +590,7 @@ CancelReq(th) ==
   /\ cancelled' = [cancelled EXCEPT ![th] = TRUE]
   /\ cancelAt' = [cancelAt EXCEPT ![th] = completed]
   /\ Goto(th, "dec")
-  /\ UNCHANGED <<srv, emv, wire, prox, h, round, nextU, cli, ackAt, unregAcked, lateSend, devUsed>>
+  /\ UNCHANGED <<srv, emv, net, prox, h, round, nextU, cli, ackAt, unregAcked, lateSend, devUsed, obsStatic>>
 
 UnsubDec(th) ==
   /\ pc[th] = "dec"
@@ -342,31 +599,31 @@ UnsubDec(th) ==
      THEN Acquire(th) /\ Goto(th, "read")
      ELSE Free(th) /\ UNCHANGED lock /\ Goto(th, "lcancel")
   /\ Overlap(th)
-  /\ UNCHANGED <<srv, emv, wire, hk, h, round, nextU, cli, ackAt, cancelled, cancelAt, unregAcked, lateSend>>
+  /\ UNCHANGED <<srv, emv, net, hk, h, round, nextU, cli, ackAt, cancelled, cancelAt, unregAcked, lateSend, obsStatic>>
 
 UnsubRead(th) ==
   /\ pc[th] = "read"
   /\ h' = [h EXCEPT ![th] = hk[Key(th)]]
   /\ Goto(th, "clear")
-  /\ UNCHANGED <<srv, emv, wire, prox, round, nextU, cli, obs>>
+  /\ UNCHANGED <<srv, emv, net, prox, round, nextU, cli, obs>>
 
 UnsubClear(th) ==
   /\ pc[th] = "clear"
   /\ hk' = [hk EXCEPT ![Key(th)] = @ - h[th]]
   /\ Goto(th, "unrpc")
-  /\ UNCHANGED <<srv, emv, wire, cnt, lock, h, round, nextU, cli, obs>>
+  /\ UNCHANGED <<srv, emv, net, cnt, lock, h, round, nextU, cli, obs>>
 
 UnsubRPC(th) ==
   /\ pc[th] = "unrpc"
-  /\ mbox' = Append(mbox, [t |-> "unreg", c |-> ConnOf[th], sig |-> SigOf[th], u |-> h[th], th |-> th])
+  /\ mbox' = [mbox EXCEPT ![ObjOf[th]] = Append(@, Request("unreg", th))]
   /\ Goto(th, "waitunreg")
-  /\ UNCHANGED <<regs, srep, emv, wire, prox, h, round, nextU, cli, obs>>
+  /\ UNCHANGED <<regs, srep, emv, net, prox, h, round, nextU, cli, obs>>
 
 \* l.124 cancel(): close(abort); the call returns to the user ...
 Abort(th) ==
   /\ pc[th] = "lcancel"
   /\ Goto(th, "closing")
-  /\ UNCHANGED <<srv, emv, wire, prox, h, round, nextU, cli, obs>>
+  /\ UNCHANGED <<srv, emv, net, prox, h, round, nextU, cli, obs>>
 
 \* ... and the forwarding goroutine, when its select takes the abort branch, removes
 \* the handler and closes the channel (client.go l.172-175); until then it may still
@@ -376,23 +633,28 @@ CloseSub(th) ==
   /\ lh' = [lh EXCEPT ![th] = FALSE] /\ closed' = [closed EXCEPT ![th] = TRUE]
   /\ q' = [q EXCEPT ![th] = <<>>]
   /\ Goto(th, "done")
-  /\ UNCHANGED <<srv, emv, wire, prox, h, round, nextU, got, obs>>
+  /\ UNCHANGED <<srv, emv, net, prox, h, round, nextU, got, obs>>
 
 Again(th) ==
   /\ pc[th] = "done" /\ round[th] < Rounds[th]
   /\ round' = [round EXCEPT ![th] = @ + 1]
   /\ Goto(th, "idle")
-  /\ UNCHANGED <<srv, emv, wire, prox, h, nextU, cli, obs>>
+  /\ UNCHANGED <<srv, emv, net, prox, h, nextU, cli, obs>>
 
 ThreadStep(th) == \/ SubLocal(th) \/ SubInc(th) \/ SubKey(th) \/ SubRPC(th) \/ Ack(th) \/ CancelReq(th)
                   \/ UnsubDec(th) \/ UnsubRead(th) \/ UnsubClear(th) \/ UnsubRPC(th)
                   \/ Abort(th) \/ CloseSub(th) \/ Again(th)
 Internal == \/ \E c \in Conns : Deliver(c)
             \/ \E th \in Threads : Forward(th)
+Environment == \/ \E i \in Inject : InjectMsg(i)
+               \/ \E c \in Rogue : \E o \in Objects : \E i \in 1..Len(regs[o]) : RogueUnreg(c, o, i)
+               \/ \E c \in Failing : BreakWrite(c, "eof") \/ BreakWrite(c, "err") \/ ReaderNotices(c)
+               \/ \E x \in clos : CloserRun(x)
 Next == \/ \E th \in Threads : ThreadStep(th)
-        \/ ServerReg \/ ServerUnreg \/ ServerReply
-        \/ EmitCall \/ EmitStart \/ SendTo \/ EmitEnd
+        \/ \E o \in Objects : ServerReg(o) \/ ServerUnreg(o) \/ ServerReply(o)
+        \/ EmitCall \/ EmitStart \/ SendTo \/ SendFail \/ FailCleanup \/ EmitEnd
         \/ Internal
+        \/ Environment
 
 Spec == Init /\ [][Next]_vars
 FairSpec == Spec /\ WF_vars(Next)
@@ -401,11 +663,11 @@ FairSpec == Spec /\ WF_vars(Next)
 \* the property
 \* ---------------------------------------------------------------------------
 EvK(seq) == [i \in 1..Len(seq) |-> seq[i].k]
-\* the emissions thread th is entitled to: its signal, called after its
-\* acknowledgement and returned before its request to cancel
+\* the emissions thread th is entitled to: its signal of its object, called after
+\* its acknowledgement and returned before its request to cancel
+Mine(th, k) == emitted[k].o = ObjOf[th] /\ emitted[k].sig = SigOf[th]
 Window(th) == IF ackAt[th] < 0 THEN {}
-              ELSE {k \in (ackAt[th] + 1)..(IF cancelled[th] THEN cancelAt[th] ELSE called) :
-                      emitted[k] = SigOf[th]}
+              ELSE {k \in (ackAt[th] + 1)..(IF cancelled[th] THEN cancelAt[th] ELSE called) : Mine(th, k)}
 InWin(th) == SelectSeq(EvK(got[th]), LAMBDA k : k \in Window(th))
 Sorted(S) == LET RECURSIVE srt(_)
                  srt(X) == IF X = {} THEN <<>>
@@ -418,49 +680,92 @@ IsPrefix(p, s) == Len(p) <= Len(s) /\ SubSeq(s, 1, Len(p)) = p
 NoDuplicate == \A th \in Threads : \A i, j \in 1..Len(InWin(th)) : i # j => InWin(th)[i] # InWin(th)[j]
 \* in its window a subscriber gets the events in emission order without a gap ...
 InOrderNoGap == \A th \in Threads : IsPrefix(InWin(th), Sorted(Window(th)))
-\* ... and gets them all: once nothing is in flight any more, nothing is missing
+\* ... and gets them all: once nothing is in flight any more, nothing is missing.
+\* (This is also what "a failing subscriber does not disturb the others" means: the
+\* threads of a broken connection are dead, everybody else stays complete.)
 InFlight(th) == \/ em.pc # "idle" \/ q[th] # <<>>
                 \/ \E i \in 1..Len(wire[ConnOf[th]]) : wire[ConnOf[th]][i].t = "ev"
 Complete == \A th \in Threads :
               (pc[th] = "acked" /\ ~InFlight(th)) => InWin(th) = Sorted(Window(th))
 InWindowExactlyOnceInOrder == NoDuplicate /\ InOrderNoGap /\ Complete
-\* only the subscribed signal, and with the emitted payload (k identifies it)
+\* only events (message type), only of the subscribed (service, object, signal), and
+\* with the emitted payload (k identifies it)
 NoForeignSignal == \A th \in Threads : \A i \in 1..Len(got[th]) :
-                      got[th][i].sig = SigOf[th] /\ got[th][i].k \in 1..called
-                      /\ emitted[got[th][i].k] = SigOf[th]
+                      /\ got[th][i].t = "ev"
+                      /\ got[th][i].o = ObjOf[th] /\ got[th][i].sig = SigOf[th]
+                      /\ got[th][i].k \in 1..called /\ Mine(th, got[th][i].k)
 \* the channel is closed once the subscriber has cancelled
 ClosedAfterCancel == \A th \in Threads : pc[th] = "done" => (closed[th] /\ ~lh[th])
 NothingAfterUnregisterAck == ~lateSend
 \* one subscriber leaving does not disturb the others: Complete/InOrderNoGap of the
 \* others; structurally: the registration stays while somebody listens
-Settled(x) == /\ mbox = <<>> /\ srep.c = "" /\ wire[x[1]] = <<>>
+Settled(x) == /\ mbox[x[2]] = <<>> /\ srep[x[2]].c = "" /\ wire[x[1]] = <<>>
               /\ \A t \in Threads : Key(t) = x => pc[t] \in {"idle", "acked", "done", "failed"}
+RegOf(th) == {i \in 1..Len(regs[ObjOf[th]]) :
+                regs[ObjOf[th]][i].c = ConnOf[th] /\ regs[ObjOf[th]][i].sig = SigOf[th]}
 OthersUndisturbed ==
-  \A th \in Threads : (pc[th] = "acked" /\ Settled(Key(th)))
-                      => \E i \in 1..Len(regs) : regs[i].c = ConnOf[th] /\ regs[i].sig = SigOf[th]
+  \A th \in Threads : (pc[th] = "acked" /\ Settled(Key(th))) => RegOf(th) # {}
+\* a registration leaves its table at most once (whoever removes it: unregisterEvent,
+\* the clean-up after a failed send, the closer of a dead connection) and nothing
+\* else leaves with it
+RemovedAtMostOnce == ~dblrm
+\* once the server has noticed that a connection is dead and the closers have run,
+\* none of its registrations is left
+NoDeadRegistration ==
+  \A c \in Conns : (wst[c] = "down" /\ clos = {} /\ em.pc = "idle")
+                   => \A o \in Objects : \A i \in 1..Len(regs[o]) : regs[o][i].c # c
 \* structural causes of duplicates / losses (auxiliary)
 AtMostOneRegistration ==
-  \A x \in Keys : Cardinality({i \in 1..Len(regs) : <<regs[i].c, regs[i].sig>> = x}) <= 1
-AllDone == \A th \in Threads : pc[th] = "done" /\ round[th] = Rounds[th]
-NoLeak == (AllDone /\ mbox = <<>> /\ srep.c = "") => regs = <<>>
-\* liveness (FairSpec): a cancelled subscription gets closed
+  \A x \in Keys : Cardinality({i \in 1..Len(regs[x[2]]) : regs[x[2]][i].c = x[1] /\ regs[x[2]][i].sig = x[3]}) <= 1
+AllDone == \A th \in Threads : (pc[th] = "done" /\ round[th] = Rounds[th]) \/ pc[th] = "dead"
+Idle == /\ \A o \in Objects : mbox[o] = <<>> /\ srep[o].c = ""
+        /\ clos = {} /\ em.pc = "idle" /\ \A c \in Conns : wst[c] \in {"up", "down"}
+NoLeak == (AllDone /\ Idle) => \A o \in Objects : regs[o] = <<>>
+\* liveness (FairSpec): a cancelled subscription gets closed; an emit call returns
+\* whatever happens to the subscribers' connections
 EventuallyClosed == \A th \in Threads : (cancelled[th] ~> (closed[th] \/ ~cancelled[th]))
+EmitReturns == (em.pc # "idle") ~> (em.pc = "idle")
 
 \* the property invariants violated in the current state (names), for the behaviour
 \* export and the trace validation
 Violated == {n \in {"NoDuplicate", "InOrderNoGap", "Complete", "NoForeignSignal", "ClosedAfterCancel",
-                     "NothingAfterUnregisterAck", "OthersUndisturbed"} :
+                     "NothingAfterUnregisterAck", "OthersUndisturbed", "RemovedAtMostOnce", "NoDeadRegistration"} :
                CASE n = "NoDuplicate" -> ~NoDuplicate
                  [] n = "InOrderNoGap" -> ~InOrderNoGap
                  [] n = "Complete" -> ~Complete
                  [] n = "NoForeignSignal" -> ~NoForeignSignal
                  [] n = "ClosedAfterCancel" -> ~ClosedAfterCancel
                  [] n = "NothingAfterUnregisterAck" -> ~NothingAfterUnregisterAck
-                 [] n = "OthersUndisturbed" -> ~OthersUndisturbed}
+                 [] n = "OthersUndisturbed" -> ~OthersUndisturbed
+                 [] n = "RemovedAtMostOnce" -> ~RemovedAtMostOnce
+                 [] n = "NoDeadRegistration" -> ~NoDeadRegistration}
+
+\* vacuity guards (MCSignal_probe*.cfg): with exactly one deviation of Probe switched on
+\* the invariant it is named with must break somewhere: the check reads the "PROBE"
+\* lines of a run over the behaviours of all probes.
+Breaks(d) == CASE d \in {"Dev_FilterIgnoresService", "Dev_FilterIgnoresObject", "Dev_FilterIgnoresAction",
+                          "Dev_ForwardIgnoresType"} -> ~NoForeignSignal
+               [] d = "Dev_StopAtFirstFailedSend" -> ~Complete
+               [] d = "Dev_CleanupRemovesBlindly" -> ~RemovedAtMostOnce
+               [] d = "Dev_UnregIgnoresConnection" -> ~OthersUndisturbed \/ ~Complete
+               [] OTHER -> FALSE
+ProbeReg(d) == CASE d = "Dev_FilterIgnoresService" -> 11 [] d = "Dev_FilterIgnoresObject" -> 12
+                 [] d = "Dev_FilterIgnoresAction" -> 13 [] d = "Dev_ForwardIgnoresType" -> 14
+                 [] d = "Dev_StopAtFirstFailedSend" -> 15 [] d = "Dev_CleanupRemovesBlindly" -> 16
+                 [] OTHER -> 17
+ASSUME \A i \in 11..17 : TLCSet(i, 0)
+\* always TRUE; prints <<"PROBE", d>> the first time deviation d breaks its invariant (-workers 1)
+ProbeSeen == \A d \in probe :
+               Breaks(d) => \/ TLCGet(ProbeReg(d)) = 1
+                            \/ PrintT(<<"PROBE", d>>) /\ TLCSet(ProbeReg(d), 1)
+\* violated (= the run may stop) once every deviation of Probe has broken its invariant
+ProbePending == \E p \in Probe : \E d \in p : TLCGet(ProbeReg(d)) = 0
 
 PCs == {"idle", "inc", "key", "rpc", "waitreg", "ackready", "acked", "failed", "dec", "read",
-        "clear", "unrpc", "waitunreg", "lcancel", "closing", "done"}
+        "clear", "unrpc", "waitunreg", "lcancel", "closing", "done", "dead"}
 TypeOK == /\ pc \in [Threads -> PCs]
           /\ \A x \in Keys : cnt[x] \in Int /\ hk[x] \in Int
           /\ called \in 0..Len(EmitSeq) /\ started <= called /\ completed <= started
+          /\ wst \in [Conns -> {"up", "eof", "err", "down"}]
+          /\ \A c \in Conns : wst[c] # "up" => c \in Failing
 =============================================================================
